@@ -7,7 +7,7 @@ from symprov.oblig import Obligation
 from harness.common import EX, TIMES, new_doc, stub_logging_str
 
 FORMATS = ["json", "provn", "xml", "rdf"]
-FAULTS = ["none", "write#1", "write#2", "write#3", "flush/close", "final move"]
+FAULTS = ["none", "write#1", "write#2", "write#3", "flush/close", "final move", "write#2 (KeyboardInterrupt)", "final move (KeyboardInterrupt)"]
 PRELOAD = ("prov.model", "prov.serializers.provjson", "prov.serializers.provn", "prov.serializers.provxml", "prov.serializers.provrdf")
 
 
@@ -17,6 +17,14 @@ CATALOGUE = ["Q3%20report.json", "caf%C3%A9.json", "%41", "100%.json", "a b.json
 
 class InjectedFault(OSError):
     pass
+
+
+class InjectedInterrupt(KeyboardInterrupt):
+    """a failure that is not an Exception subclass (Ctrl-C / SystemExit while writing)"""
+
+
+def _raise(state, msg):
+    raise (InjectedInterrupt if state.get("interrupt") else InjectedFault)(msg)
 
 
 # --------------------------------------------------------------------------------------------------------------------
@@ -167,14 +175,14 @@ class _FaultyStream:
     def write(self, data):
         self._s["writes"] += 1
         if self._s["fault"] == "write#%d" % self._s["writes"]:
-            raise InjectedFault("injected failure at write #%d" % self._s["writes"])
+            _raise(self._s, "injected failure at write #%d" % self._s["writes"])
         self._buf.append(data)
         return len(data)
 
     def flush(self):
         if self._s["fault"] == "flush/close":
             self._buf = []
-            raise InjectedFault("injected failure at flush/close (e.g. disk full): buffered data lost")
+            _raise(self._s, "injected failure at flush/close (e.g. disk full): buffered data lost")
         for d in self._buf:
             self._r.write(d)
         self._buf = []
@@ -219,7 +227,7 @@ def _run_real(ctx, name, fmt, fault, preexisting):
     scratch = tempfile.mkdtemp(prefix="c17_")
     othertmp = tempfile.mkdtemp(prefix="c17tmp_")
     cwd = os.getcwd()
-    state = {"writes": 0, "fault": fault}
+    state = {"writes": 0, "fault": fault.split(" (")[0], "interrupt": fault.endswith("(KeyboardInterrupt)")}
     d = _doc()
     expected = d.serialize(format=fmt)
     old = b"PREVIOUS CONTENT\n" * 3
@@ -235,7 +243,7 @@ def _run_real(ctx, name, fmt, fault, preexisting):
     def atomic(fn):
         def w(src, dst, *a, **kw):
             if state["fault"] == "final move":
-                raise InjectedFault("injected failure at the final move (atomic rename: nothing happened)")
+                _raise(state, "injected failure at the final move (atomic rename: nothing happened)")
             if not _same_dir(src, dst):
                 raise OSError(18, "Invalid cross-device link (the default temp directory is modelled as another device)")
             return fn(src, dst, *a, **kw)
@@ -245,13 +253,13 @@ def _run_real(ctx, name, fmt, fault, preexisting):
         def w(src, dst, *a, **kw):
             if state["fault"] == "final move":
                 if _same_dir(src, dst) and fn is shutil.move:
-                    raise InjectedFault("injected failure at the final move (same directory: rename, nothing happened)")
+                    _raise(state, "injected failure at the final move (same directory: rename, nothing happened)")
                 # copy across devices interrupted half way: the destination is left truncated
                 with open(src, "rb") as f:
                     data = f.read()
                 with open(dst, "wb") as g:
                     g.write(data[: len(data) // 2])
-                raise InjectedFault("injected failure in the middle of a non-atomic copy to the destination")
+                _raise(state, "injected failure in the middle of a non-atomic copy to the destination")
             return fn(src, dst, *a, **kw)
         return w
 
@@ -276,7 +284,7 @@ def _run_real(ctx, name, fmt, fault, preexisting):
         raised = None
         try:
             d.serialize(destination=name, format=fmt)
-        except InjectedFault as e:
+        except (InjectedFault, InjectedInterrupt) as e:
             raised = e
         finally:
             pm.os, pm.shutil, tempfile.tempdir = saved[0], saved[1], saved[2]
@@ -314,8 +322,8 @@ def _run_real(ctx, name, fmt, fault, preexisting):
             ctx.check(content == want, "after a failure (%s) the named file %s instead of keeping its previous state"
                       % (raised, "is truncated / partially written" if content is not None else "disappeared"))
             others = [x for x in listing if x != name]
-            ctx.check(all(x.startswith("tmp") or x.startswith(".") for x in others),
-                      "after a failure other files appeared next to the destination: %r" % others)
+            ctx.check(others == [], "after a failure (%s: %s) other files were left next to the destination: %r" % (type(raised).__name__, raised, others))
+            ctx.check(leftovers == [], "after a failure temporary files were left in the temp directory: %r" % leftovers)
     finally:
         os.chdir(cwd)
         shutil.rmtree(scratch, ignore_errors=True)
@@ -383,7 +391,7 @@ OBLIGATIONS = [
                     "produces one name per branch of the name handling (urlparse: scheme ':', '#', '?', ';', leading control characters ...) x fault point x pre-existing file; "
                     "Stage B replays each witness on the real file system in a scratch directory with a failure injected at the k-th stream write or at the final move, and checks: "
                     "exactly the named file holds the complete serialisation and nothing else was created; after a failure the named file keeps its previous bytes or stays absent",
-               bounds={"quick": "file names of 1-3 code points (no '/', NUL, '.', '..'): one witness per path of the name handling; each witness x 4 formats x 5 fault points x with/without pre-existing file on the real file system",
+               bounds={"quick": "file names of 1-3 code points (no '/', NUL, '.', '..'): one witness per path of the name handling; each witness x 4 formats x 7 fault points (5 raising OSError, 2 raising KeyboardInterrupt) x with/without pre-existing file on the real file system",
                        "thorough": "file names of 1-4 code points"},
                assumptions=["the system default temp directory is another device than the destination directory (a copy across devices is not atomic; rename across devices fails with EXDEV)",
                             "a failure during an atomic rename leaves both files untouched", "stub: urllib.parse.urlsplit's lru_cache is bypassed in Stage A"],
